@@ -71,7 +71,8 @@ def interesting(inp):
     return len(builds) >= 1 and len(cmds) >= 2
 
 
-def replay_all(prog, groups, bindir, root, nworkers=8, log_mode=None, keep_failed=True, cmd_timeout=60, cats=None):
+def replay_all(prog, groups, bindir, root, nworkers=8, log_mode=None, keep_failed=True, cmd_timeout=60, cats=None,
+               pad=0, watch=False):
     """Replay history groups (list of lists of alternatives) in parallel.
     Returns (n_ok, failures) with failures = list of (alts, report, dir)."""
     os.makedirs(root, exist_ok=True)
@@ -82,7 +83,8 @@ def replay_all(prog, groups, bindir, root, nworkers=8, log_mode=None, keep_faile
         i, alts = ig
         d = os.path.join(root, 'h%05d' % i)
         try:
-            ok, rep = harness.replay_group(prog, alts, d, bindir, log_mode=log_mode, cmd_timeout=cmd_timeout, cats=cats)
+            ok, rep = harness.replay_group(prog, alts, d, bindir, log_mode=log_mode, cmd_timeout=cmd_timeout, cats=cats,
+                                           pad=pad, watch=watch)
         except Exception as ex:      # harness trouble is reported as a failure of that history
             import traceback
             ok, rep = False, [{'diffs': ['harness exception: %r %s' % (ex, traceback.format_exc()[-600:])]}]
